@@ -6,6 +6,7 @@ AU_ENC = [("PCM_16", "SF_FORMAT_PCM_16", 2), ("PCM_24", "SF_FORMAT_PCM_24", 3), 
 
 
 def units():
+    import os
     U = []
     for nm, sub, bw in AU_ENC:
         for ch in (1, 2, 3):
@@ -22,6 +23,21 @@ def units():
                       "kind": "proof (pair lemma; channels and encoding enumerated; N, sample rate, byte order symbolic; loops over literal format strings unwound completely)",
                       "trusted": ["harness virtual-I/O callbacks stand for the caller's SF_VIRTUAL_IO (header region stored, audio region a length)",
                                   "psf_log_printf compiled out in the container translation unit"]})
+    MAT5_ENC = [("PCM_U8", "SF_FORMAT_PCM_U8", 1), ("PCM_16", "SF_FORMAT_PCM_16", 2), ("PCM_32", "SF_FORMAT_PCM_32", 4), ("FLOAT", "SF_FORMAT_FLOAT", 4), ("DOUBLE", "SF_FORMAT_DOUBLE", 8)]
+    for nm, sub, bw in MAT5_ENC:
+      for en in ("LITTLE", "BIG"):
+        for ch in (1, 2, 3):
+            quick = (nm, ch, en) in (("PCM_16", 2, "LITTLE"), ("DOUBLE", 1, "BIG"), ("FLOAT", 3, "LITTLE"))
+            U.append({"name": "hdr.mat5.%s.%s.ch%d" % (nm, en.lower(), ch), "props": ["C04", "C11", "C10"], "harness": "hdr_mat5.harness.c", "entry": "h_mat5_pair",
+                      "dfcc": False, "function": "mat5.c:mat5_write_header + mat5_read_header (with common.c psf_binheader_writef/readf, file_io.c)",
+                      "link_sources": ["common.c", "file_io.c"], "defines": ["-DCH=%d" % ch, "-DSUBFORMAT=%s" % sub, "-DBYTEW=%d" % bw, "-DN_MAX=((1LL<<31)-1)", "-DENDIAN=SF_ENDIAN_" + en, "-include", "/verif/spec/abi_vaarg.h"] + ([ "-DSTAGE=" + os.environ["MAT5_STAGE"]] if os.environ.get("MAT5_STAGE") else []),
+                      "cbmc_flags": ["--unwind", "130", "--unwindset", "v_write.0:520", "--object-bits", "10", "--max-field-sensitivity-array-size", "1100"],
+                      "pre_gi_flags": ["--remove-function-body", "psf_log_printf", "--remove-function-body", "psf_bump_header_allocation",
+                                       "--generate-function-body", "psf_bump_header_allocation",
+                                       "--generate-function-body-options", "assert-false"], "timeout": 1800, "tier": "quick" if quick else "thorough",
+                      "kind": "proof (pair lemma; channels and encoding enumerated; byte order enumerated; N <= 2^31-1 (the format's 32 bit column count) and sample rate symbolic; loops over literal strings unwound completely)",
+                      "trusted": ["harness virtual-I/O callbacks stand for the caller's SF_VIRTUAL_IO (header region stored, audio region a length)",
+                                  "psf_log_printf compiled out; the date text of the MAT5 banner is a fixed string"]})
     # C10: open-for-write acceptance per container (real sf_format_check + real X_open + real header writer)
     # codec initialisers called by each container's open function but defined elsewhere: found mechanically in the
     # source on every run and replaced by call-counting stand-ins (signatures from common.h)
